@@ -5,8 +5,12 @@ permutations of their instructions; the observable event trace (deferrals, creat
 appends, sets), the returned promise map and the touched cells of the model are compared with
 `Model/Decl.v: w_apply` (scheduler + compilation of the document into atomic actions).
 Oracle: raw-lxml UUID-free canonical form of all model trees compared across permutations,
-promise map / reference targets checked against the generator's intent, error class for
-undeclared / duplicate promises.
+promise map / reference targets / member order of list-valued `set`s checked against the
+generator's intent (raw XML), error class for undeclared / duplicate promises.
+Input classes: promises declared by created objects (extend / create / nested / sync-created) and by
+matched sync entries (objects of the base model), duplicates of every pair of those origins (also two
+matched entries of one object); `set` values that are scalars, references (!promise / !uuid / !find)
+and lists mixing the three in every position, at instruction level and inside matched sync entries.
 """
 from __future__ import annotations
 
@@ -117,6 +121,9 @@ class Base:
             typed = sum(1 for x in lf if x.name == f.name) == 1
             untyped = sum(1 for x in allnamed if x.name == f.name) == 1
             self.extraF.append((f.uuid, f.name, typed, untyped))
+
+        # classes of the base model a scalar `set` can refer to by !uuid
+        self.extraK = [k.uuid for k in m.la.data_package.classes][:3]
 
     def load(self):
         import capellambse
@@ -388,6 +395,11 @@ def gen_plan(rng, base: Base, n: int, *, stable=True, malform=None, feature_bias
         for a in list(o.refs):
             if rng.random() < 0.25:
                 o.late[a] = o.refs.pop(a)
+        # a reference to an object of the base model, set by a separate instruction (!uuid as a scalar `set` value)
+        if o.typ in ("K", "PR") and base.extraK and rng.random() < 0.4:
+            a = "super" if o.typ == "K" else "type"
+            if a not in o.refs and a not in o.late:
+                o.late[a] = ("basek", rng.choice(base.extraK))
     # 4. cells: inline or separate; sync mode for some separate cells
     cells = {}
     for o in objs:
@@ -577,6 +589,9 @@ def gen_plan(rng, base: Base, n: int, *, stable=True, malform=None, feature_bias
             if isinstance(v, Obj):
                 plan.ref_expect.append((o.key, v.key))
                 v = ref_to(v)
+            elif isinstance(v, tuple):
+                plan.ref_expect.append((o.key, v[1]))
+                v = Ref("obj", v[1])
             by_parent.setdefault(id(o), (o, []))[1].append(("set", a, v))
             plan.features.add("set")
     # list-valued sets
@@ -732,6 +747,7 @@ def gen_plan(rng, base: Base, n: int, *, stable=True, malform=None, feature_bias
         variants = ["new+extend", "new+sync", "new+found", "found+new", "found+found-same", "found+found-same", "found+found-other"]
         first, second = ((feature_bias or {}).get("dup") or rng.choice(variants)).split("+", 1)
         ftypes = {c[2] for c in base.found}
+        cand2 = None
         if second == "found" and not any(o.promise is not None and o.typ in ftypes for o in objs):
             second = rng.choice(["extend", "sync"])
         if first == "new":
@@ -804,6 +820,19 @@ def gen_plan(rng, base: Base, n: int, *, stable=True, malform=None, feature_bias
             same_list = second == "found-same" and rng.random() < 0.4
             add_found(cand2, pid, sets, into=found_item[cand[3]][0] if same_list else None)
             second = "sync-matched" + ("-same-object" if cand is not None and cand2[3] == cand[3] else "")
+        # until the duplicate is noticed the id resolves to either declarer: a list that mentions the id must not also
+        # mention a matched declarer in another way (the list would hold the same object twice)
+        dupset = {c[3] for c in (cand, cand2) if c is not None}
+
+        def clash(r):
+            return ((r.kind == "obj" and r.key in dupset)
+                    or (r.kind == "prom" and r.p != pid and plan.promise_target.get(r.p) in dupset))
+        for ins in instrs:
+            holders = [ins.set] + [x.set for _, xs in ins.sync for x in xs]
+            for lst in holders:
+                for i, (a, v) in enumerate(lst):
+                    if isinstance(v, list) and any(r.kind == "prom" and r.p == pid for r in v):
+                        lst[i] = (a, [r for r in v if not clash(r)])
         if rng.random() < 0.5:
             ins = Instr(Ref("prom", "?", p=pid))          # somebody uses the id
             ins.set.append(("description", "uses the duplicated id"))
@@ -1277,7 +1306,10 @@ def run(chk: lib.Check):
     chk.assumptions += [
         "objects are identified by their unique name (created) or UUID (base model); !find directives are treated as static "
         "references plus the promises they mention (find_stable: the generator only emits finds whose match set does not depend on the order)",
-        "sync entries in C12 documents are restricted to find-by-name with set values and a promise id (found/not-found known statically)",
+        "sync entries in C12 documents are restricted to find-by-name with set values and a promise id (found/not-found known statically: "
+        "matched entries aim at objects of the base model whose name is unique in their list, created ones carry fresh names)",
+        "a list-valued `set` is one action (clear + appends) that waits for the first unknown member; lists inside a created sync entry are "
+        "modelled as per-member appends (c_listattrs) but not generated",
         "harness abstraction document -> val encoding, Tracer (monkeypatched signal class / setattr / coupled list front end)",
     ]
 
